@@ -7,11 +7,17 @@
    specification defines or mentions for an object loaded under prefix p -- sequences, strands,
    structures, kinetics and the signal / equal lines -- starts with p (C02_emitted_names_prefixed);
    names of two different instances of one system never coincide (C02_instances_disjoint), so
-   instances share nothing except through the signal lines of their parent.  The composed
-   denotation (which port equals which signal, with which orientation, through nested systems)
-   is additionally checked per case by the specification oracle expected_system_den. *)
+   instances share nothing except through the signal lines of their parent.
+   The signal clause itself is proved as a statement about the emitted document (C02_signal_lines_resolve,
+   C02_equal_line_meaning): in the environment the document's own definition lines build, at every depth of
+   nesting, a signal is a sequence of its recorded length and every item of its `equal` line resolves to the
+   nucleotides of the sequence the binding names (a sequence of a component instance, or the signal of a
+   sub-system), reverse-complemented exactly when the binding's effective star (binding star xor declaration
+   star, C02_binding_orientation) is set; hence the line holds for an assignment exactly when every bound port
+   reads the signal, or its reverse complement.  The composed denotation is additionally checked per case by
+   the specification oracle expected_system_den. *)
 From Coq Require Import List String Ascii Arith Bool ZArith.
-From PC Require Import Base.Sexp Comp.Syntax Comp.Compile Comp.Denote Comp.EmitProofs Subst.VarSubst Sys.System Sys.SystemProofs Sys.PrefixProofs.
+From PC Require Import Base.Sexp Comp.Syntax Comp.Compile Comp.Denote Comp.EmitProofs Subst.VarSubst Comp.WfPil Sys.SignalProofs Sys.DesSys Sys.LoadWf Sys.SysWfPil Sys.System Sys.SystemProofs Sys.PrefixProofs.
 Import ListNotations.
 
 Theorem C02_import_first_match : forall fs b paths,
@@ -69,3 +75,20 @@ Theorem C02_instances_disjoint : forall p cn1 cn2 m1 m2, no_dash cn1 -> no_dash 
   (p +++ cn1 +++ "-") +++ m1 <> (p +++ cn2 +++ "-") +++ m2.
 Proof. exact instances_disjoint. Qed.
 Print Assumptions C02_instances_disjoint.
+
+(* the signal clause, through any depth of nesting, as a statement about the emitted document *)
+Theorem C02_signal_lines_resolve : forall fs includes ctr b args o ctr', load_file fs includes 12 ctr b args "" "." = OK (o, ctr') -> names_ok 12 o ->
+  exists d, wf_run (emit_obj 12 o) w0 = Some d /\ all_equal_ok 12 o (w_env d).
+Proof. exact loaded_system_equal_lines. Qed.
+Print Assumptions C02_signal_lines_resolve.
+
+Theorem C02_equal_line_meaning : forall v env q comps lens s entries,
+  afind env (q +++ s) = Some (dom_nts (q +++ s) (lens_of lens s)) ->
+  (forall l cname wc, In (l, cname, wc) entries ->
+     resolve_items env [(loc_name q comps l cname, wc)] = Some (orient wc (port_named q comps l cname)) /\
+     List.length (port_named q comps l cname) = lens_of lens s) ->
+  (equal_holds v env ((q +++ s, false) :: map (fun '(l, cname, wc) => (loc_name q comps l cname, wc)) entries) <->
+   forall l cname wc, In (l, cname, wc) entries ->
+     SignalProofs.seqval v (port_named q comps l cname) = if wc then SignalProofs.rcb (SignalProofs.seqval v (dom_nts (q +++ s) (lens_of lens s))) else SignalProofs.seqval v (dom_nts (q +++ s) (lens_of lens s))).
+Proof. exact equal_line_meaning. Qed.
+Print Assumptions C02_equal_line_meaning.
